@@ -221,8 +221,13 @@ func (s *Session) solveAll() {
 	var wg sync.WaitGroup
 	nconc := 14
 	if s.tier == "thorough" {
-		nconc = 5
+		nconc = 7
 	}
+	total := 0
+	for _, u := range s.units {
+		total += len(u.Obls)
+	}
+	big := total > 1500
 	sem := make(chan struct{}, nconc)
 	n := 0
 	run := func(o *Obligation) {
@@ -237,7 +242,7 @@ func (s *Session) solveAll() {
 			sem <- struct{}{}
 			defer func() { <-sem }()
 			if s.tier == "thorough" {
-				o.Result = solveAgree(s.outDir, fmt.Sprintf("o%d", id), o.Script, s.timeoutS)
+				o.Result = solveAgree(s.outDir, fmt.Sprintf("o%d", id), o.Script, s.timeoutS, big && id%10 != 0)
 			} else {
 				o.Result = solve(s.outDir, fmt.Sprintf("o%d", id), o.Script, s.timeoutS)
 			}
